@@ -16,6 +16,12 @@ ENUMS = [
 ASSUMPTIONS = [
     "crcmod's C implementation of crc-ccitt-false is outside the model; it is tied to the bitwise Coq definition by C04's exhaustive comparison of the byte-update function and here by every packed packet",
     "CPython int/bytes/struct semantics as modelled in Base/Bytes.v",
+    "live-object histories (op 520): judged by design, not as defects: the telecommand keeps a reference to the caller's "
+    "bytearray / header objects (no defensive copy; app_data returns internal state); from_sp_header overwrites type, flag "
+    "and length of the caller's header and adopts it; from_composite_fields keeps the caller's data length; "
+    "to_space_packet() omits the secondary header when sec_header_flag was cleared while pack() always writes it; "
+    "pack(recalc_crc=False) after a field change carries the cached CRC (documented); the value of crc16 between a field "
+    "change and the next pack is not judged by the oracle (only compared with the model)",
 ]
 TRUSTED = []
 ORACLE_LIMIT = {"quick": 6000, "thorough": 40000}
@@ -703,6 +709,9 @@ def hardening_streams(tier, rng):
             cases.append((503, [pkt]))
             cases.append((504, a))
     big_sizes = [4095, 4096, 4097, 65528, 65529] + ([8191, 8192, 16384, 32767, 32768, 65527] if big else [])
+    if big:                                                      # coarse steps up to the field's limit
+        for n in range(4200, 65529, 251):
+            cases.append((505, [[17, 1, rng.randrange(2048), rng.randrange(16384), rng.randrange(65536), 15], pc.rbytes(rng, n)]))
     for n in big_sizes:
         a = [[17, 1, 0x7FF, 0x3FFF, 0xFFFF, 15], pc.rbytes(rng, n)]
         cases.append((505, a))
